@@ -368,7 +368,7 @@ class Engine:
         kind = spec["kind"]
         fn = FN[kind]
         fault = spec.get("fault") or {}
-        what = ("a MemoryError injected into copy.deepcopy (invocation %s)" % fault.get("nth") if fault.get("deepcopy_raises") else
+        what = ("a MemoryError injected into copy.deepcopy (step %s: 0 = the call, then the copies of the Fragile data values)" % fault.get("nth") if fault.get("deepcopy_raises") else
                 "a MemoryError raised by copy %s of a data value" % fault.get("fuse_nth") if "fuse_nth" in fault else
                 "the interpreter's default recursion limit")
         classes = (MemoryError,) if fault else (RecursionError,)
@@ -513,7 +513,7 @@ class Engine:
                                     limit=spec.get("limit"), observed=obs))
             rp["rerun_hint"] += "   |   verdict: /venv/bin/python -m harness.c19_edge replay <this file>"
         else:
-            rp["rerun_hint"] = "PYTHONPATH=<repo>:/verif /venv/bin/python -m harness.c19_edge replay <this file>"
+            rp["rerun_hint"] = "cd /verif && VERIF_REPO=<repo> PYTHONPATH=<repo>:/verif /venv/bin/python -m harness.c19_edge replay <this file>"
         return rp
 
 
@@ -616,7 +616,7 @@ def gen_containers(C, rng, tier):
                 for cc in X.ALL_KINDS[1:]:
                     yield with_rules({"kind": kind, "events": evs, "classes_container": cc, "stream": "containers", "group": group,
                                       "container": ("list", "tuple", "generator")[len(cc) % 3]})
-    for _ in range(300 if tier == "quick" else 6000):
+    for _ in range(300 if tier == "quick" else 4000):
         kind = rng.choice(KINDS)
         events = [(t, d, dict(items), i) for i, t, d, items in C.rand_events(rng, lambda: C.rand_data(rng), 6)]
         spec = {"kind": kind, "events": events, "stream": "containers", "container": rng.choice(X.ALL_KINDS)}
@@ -653,7 +653,7 @@ def gen_dicttypes(C, rng, tier):
                        "stream": "dicttypes", "route": ("direct", "registry")[n % 2]}
                 yield {"kind": "simplify", "key": key, "events": [E(j, X.exotic(t, dk), 1000, eid=j)], "stream": "dicttypes"}
     kinds_all = DICT_KINDS + ["plain"]
-    for _ in range(800 if tier == "quick" else 16000):
+    for _ in range(800 if tier == "quick" else 12000):
         kind = rng.choice(KINDS)
         views = C.rand_events(rng, lambda: C.rand_data(rng), 5)
         key = rng.choice(["title", "title", "name", "app"])
@@ -728,7 +728,7 @@ def gen_extremes(C, rng, tier):
         for j, d in enumerate(durs):        # one event each (what a minimal replay looks like)
             if j % 4 == KINDS.index(kind):
                 yield with_rules({"kind": kind, "events": [(far[j % len(far)], d, datas[2], j)], "stream": "extremes"})
-    for _ in range(300 if tier == "quick" else 6000):
+    for _ in range(300 if tier == "quick" else 4000):
         kind = rng.choice(KINDS)
         key = "title"
         events = []
@@ -773,7 +773,12 @@ def gen_faults(C, rng, tier):
         for m, events in enumerate((evs, evs[:1], [])):
             yield with_rules({"kind": kind, "events": events, "stream": "faults:deepcopy", "fault": {"deepcopy_raises": "MemoryError", "nth": 0},
                               "container": ("list", "deque", "tuple")[m]})
-        # a data value whose copy fails: first, last, a random one (3 Fuse objects per event)
+        # the copy of one (string) data value fails: txedge.Fragile values are steps of a DeepcopyFault after the top-level
+        # deepcopy call (step 0); 2 per event
+        fr = [(t, d, dict(x, f=X.Fragile("v%d" % j), fk=[1, X.Fragile("* w%d" % j)]), i) for j, (t, d, x, i) in enumerate(evs)]
+        for nth in (1, 2 * len(fr), rng.randrange(2, 2 * len(fr))):
+            yield with_rules({"kind": kind, "events": fr, "stream": "faults:copy-of-a-value", "fault": {"deepcopy_raises": "MemoryError", "nth": nth}})
+        # an opaque data value whose copy fails: first, last, a random one (3 Fuse objects per event)
         nf = 3 * len(evs)
         for nth in (0, nf - 1, rng.randrange(1, nf - 1), nf):
             yield with_rules({"kind": kind, "events": evs, "stream": "faults:copy-of-a-value", "fuses": True, "fault": {"fuse_nth": nth}})
